@@ -134,6 +134,12 @@ TOther ==
                 [] OTHER -> Tick
   /\ UNCHANGED <<cfg, logs, startAt, deliv, icount, phase, viol>>
 
+TPanic ==
+  /\ E.ev = "panic"
+  /\ viol' = viol \cup V("no_panic")
+  /\ stats' = Tick
+  /\ UNCHANGED <<cfg, logs, startAt, deliv, icount, phase>>
+
 TEnd ==
   /\ E.ev = "end"
   /\ PrintT(<<"VIOL", ToJson(viol)>>)
@@ -141,7 +147,7 @@ TEnd ==
   /\ UNCHANGED <<cfg, logs, startAt, deliv, icount, phase, viol, stats>>
 
 Next == /\ l <= Len(Trace) /\ l' = l + 1
-        /\ (TReset \/ TLog \/ TStart \/ TDeliver \/ TIntercept \/ TFinPart \/ TPhase \/ TOther \/ TEnd)
+        /\ (TReset \/ TLog \/ TStart \/ TDeliver \/ TIntercept \/ TFinPart \/ TPhase \/ TOther \/ TPanic \/ TEnd)
 Spec == Init /\ [][Next]_vars
 Accepted == TLCGet("stats").diameter - 1 = Len(Trace)
 =============================================================================
